@@ -41,23 +41,23 @@ QUEUE_TRUSTED = [
 PROPS = {
     "C14": {
         "props_file": "Props/C14.v",
-        "theorems": ["c14_count", "c14_keys", "c14_matrix_product_exact", "c14_matrix_product_count", "c14_matrix_product_distinct", "c14_names_distinct", "c14_vars_identify_index", "c14_admission_count_keys", "c14_admission_matrix"],
+        "theorems": ["c14_count", "c14_keys", "c14_odometer_is_product", "c14_matrix_expansion", "c14_matrix_product_exact", "c14_matrix_product_count", "c14_matrix_product_distinct", "c14_names_distinct", "c14_vars_identify_index", "c14_admission_count_keys", "c14_admission_matrix"],
         "families": [{"name": "parallel", "n_quick": 2000, "n_thorough": 80000}],
         "rule": "parallel: generated parallelism specs (withCount incl. 0, negative, 58/69/70/120; key lists with duplicates, empties, prefixes/permutations; matrices with 1-3 keys x 0-3 values, duplicates, invalid keys; several or no types at once) through ValidateParallelismSpec, GenerateIndexes (panics caught), HashIndex, GenerateTaskName, MakeVariablesFromTask and NewPod for every index in sequence on the same Job object; non-trivial = more than one index; distinct by spec",
         "trusted": ["oracle: parallel.HashIndex (hashstructure FNV -> decimal -> base32 -> first 6); hashes of the run's indexes are compared for collisions by the monitor", "the withMatrix key regexp is an oracle bit per case"],
-        "assumptions": ["partial: 'the odometer loop of GenerateMatrixCombinations = the lexicographic cartesian product' is checked by the stream on every generated matrix (model odometer = implementation) and on the Example, not proved in general; the theorems about completeness/distinctness of combinations are about the product"],
-        "level_text": "Theorems: withCount/withKeys expansion exact and in order; the cartesian product is complete, of the right size and duplicate-free for duplicate-free lists; task names are injective in (hash, retry); the index variables identify the index; accepted specs have no duplicate or empty lists. The faithful odometer model is tied to the code by the parallel stream; hash collisions are judged by the monitor (open finding F5c).",
-        "level_note": "Partial (odometer refinement not proved). Trusted: Coq kernel + vm_compute; HashIndex as oracle.",
+        "assumptions": ["the refinement odometer = product needs every value list non-empty (admission guarantees it after fix 74d66b5; with an empty list the Go loop panics, modelled as None)"],
+        "level_text": "Theorems: withCount/withKeys expansion exact and in order; the cartesian product is complete, of the right size and duplicate-free for duplicate-free lists; task names are injective in (hash, retry); the index variables identify the index; accepted specs have no duplicate or empty lists. The index-vector-with-carry loop of GenerateMatrixCombinations is proved to enumerate exactly the lexicographic product (mixed-radix counter refinement), and its faithful model is tied to the code by the parallel stream; hash collisions are judged by the monitor (open finding F5c).",
+        "level_note": "Trusted: Coq kernel + vm_compute; HashIndex as oracle.",
     },
     "C18": {
         "props_file": "Props/C18.v",
-        "theorems": ["c18_bool", "c18_string", "c18_select", "c18_multi", "c18_date", "c18_wrong_type_rejected", "c18_default_agreement", "c18_one_value_per_option", "c18_rejected_iff_some_option_rejected", "c18_admission_precedence", "c18_option_own_value", "c18_substitution_deterministic", "c18_plain_text_untouched_partial", "c18_exact_variable_partial"],
+        "theorems": ["c18_bool", "c18_string", "c18_select", "c18_multi", "c18_date", "c18_wrong_type_rejected", "c18_default_agreement", "c18_one_value_per_option", "c18_rejected_iff_some_option_rejected", "c18_admission_precedence", "c18_option_own_value", "c18_substitution_deterministic", "c18_template_semantics", "c18_pod_template_semantics", "c18_plain_text_untouched"],
         "families": [{"name": "options", "n_quick": 3000, "n_thorough": 60000}],
         "rule": "options: three kinds of case. (1) one option of any of the five types (incl. unknown bool formats, empty/duplicate allowed values, all delimiters) with a value that is missing, null, wrong-typed, empty, whitespace, custom or containing ${..}, through EvaluateOption and EvaluateOptionDefault. (2) SubstituteVariableMaps on tokenised templates (known/unknown/reserved/malformed variables, literals) with 1-3 maps whose values may mention other variables of the same map; each call and NewPod repeated 20 times. (3) a JobConfig with 0-3 options + template args, a Job admitted by configName with optionValues JSON and explicit substitutions, or created by NewJobFromJobConfig as the cron controller does, through Mutator.MutateCreateJob and then podtaskexecutor.NewPod: stored spec.substitutions and rendered args compared with the model. non-trivial = evaluation succeeded / template has a variable / admitted with >=1 option; distinct by inputs",
         "trusted": ["oracle: goment date formatting (FormatAsMoment) and time.Parse(RFC3339) - the formatted text of each date value of the run is shipped with the case", "strings.TrimSpace is modelled for ASCII white space only (the streams generate only that)", "the task-context variable map is taken from MakeVariablesFromTask (its correspondence is C14's)", "JSON/YAML decoding of optionValues (jsonyaml.UnmarshalString) is exercised, not modelled: the model receives the decoded values"],
-        "assumptions": ["partial: the general template semantics (every ${name} of an arbitrary template takes the highest-priority value, unknown reserved names blank) is a model definition (substitute_maps = the code's ReplaceAll/regexp pipeline) tied by the stream and an independent monitor on tokenised templates; proved are: plain text untouched, exact single variable, priority of the stored map, determinism"],
-        "level_text": "Theorems over all inputs: per-type constraint satisfaction of every accepted value (allowed values, required => non-empty, trimming, bool formats, multi join, date via oracle), rejection of wrong-typed values, agreement of 'no value' with EvaluateOptionDefault, one value per declared option or rejection, the priority order explicit > option > jobconfig context of the stored map (sort_kv is a finite map: later wins), independence of substitution from map enumeration order (sorted lists with equal lookups are equal). Model tied to EvaluateOption/Default, SubstituteVariableMaps, MutateCreateJob and NewPod by the options stream.",
-        "level_note": "Partial on general template semantics. Genuine defect F7 (map-order dependent rendering) fixed in 3075a93. Trusted: Coq kernel + vm_compute; date formatting oracle.",
+        "assumptions": ["c18_template_semantics is stated for tokenised templates (literal pieces without '$', ${name} tokens whose names contain neither '$' nor '}') and substitution values without '$'; values that themselves contain variable syntax are re-scanned by the later ReplaceAll calls - for them the theorems give determinism only, the stream ties the model to the code"],
+        "level_text": "Theorems over all inputs: per-type constraint satisfaction of every accepted value (allowed values, required => non-empty, trimming, bool formats, multi join, date via oracle), rejection of wrong-typed values, agreement of 'no value' with EvaluateOptionDefault, one value per declared option or rejection, the priority order explicit > option > jobconfig context of the stored map (sort_kv is a finite map: later wins), independence of substitution from map enumeration order (sorted lists with equal lookups are equal), and the template semantics: every ${name} takes the value of the first (highest-priority) map that defines it, unknown names with a reserved prefix become empty, everything else is untouched (proved about the ReplaceAll / regexp scanning functions themselves). Model tied to EvaluateOption/Default, SubstituteVariableMaps, MutateCreateJob and NewPod by the options stream.",
+        "level_note": "Genuine defect F7 (map-order dependent rendering) fixed in 3075a93. Trusted: Coq kernel + vm_compute; date formatting oracle.",
     },
     "C15": {
         "props_file": "Props/C15.v",
@@ -111,13 +111,13 @@ PROPS = {
     },
     "C05": {
         "props_file": "Props/C05.v",
-        "theorems": ["c05_pass_bound", "c05_no_double_increment", "c05_release_on_finish", "c05_release_on_delete", "c05_store_steps", "c05_rollback", "c05_recover"],
+        "theorems": ["c05_start_respects_max", "c05_counter_dominates", "c05_pass_bound", "c05_no_double_increment", "c05_release_on_finish", "c05_release_on_delete", "c05_store_steps", "c05_rollback", "c05_recover"],
         "families": [{"name": "queue", "n_quick": 300, "n_thorough": 8000}],
         "rule": QUEUE_RULE,
         "trusted": QUEUE_TRUSTED,
-        "assumptions": ["partial: the history invariant 'counter >= number of really active Jobs' (Phi = counter + pending store deltas = active Jobs in the API) is argued in DESIGN.md section 7 C05 and judged by the monitor on every history; it is not yet a Coq theorem", "a start write that is applied but reported as failed (timeout after apply) is not generated (F8 hypothesis, unconfirmed)"],
-        "level_text": "Theorems: every start of a Forbid/Enqueue Job by a pass is admitted at counter value a' with a'+1 <= maxConcurrency (snapshot = counter by CheckAndAdd); the store never counts the start twice, releases exactly once on finish/delete; rollback on a failed write; recount on restart. Model = whole PerConfigReconciler pass + Store + listeners, tied to the real code by the queue stream (lagging cache/listeners, faults, restarts); the bound against the API truth is judged by the monitor at every start.",
-        "level_note": "Partial: the counter-over-approximation invariant over histories is checked by the monitor, not proved. Passes are atomic w.r.t. listener deliveries in the model (CAS failure branch not exercised).",
+        "assumptions": ["the independent reconciler is only invoked for Jobs without a JobConfig owner (the informer routes owned Jobs to the per-JobConfig queue): hypothesis run_ok of the history theorems", "'nothing is over-counted for ever' (the counter returns to the true count at quiescence) is judged by the monitor (signature counter-differs-at-quiescence), the theorems give the safety direction counter >= active", "a start write that is applied but reported as failed (timeout after apply) is not generated (F8 hypothesis, unconfirmed)"],
+        "level_text": "Theorems over all histories (invariant Phi: active(API) <= counter + effect of the events the store has not seen, all pending effects <= 0; preserved by every op incl. failed and conflicting writes, rollback, restart): in every reachable world the counter is at least the number of owned active Jobs in the API, and whenever a pass starts a Forbid/Enqueue Job the owned active Jobs in the API just before number at most maxConcurrency-1. Per pass: every start of a Forbid/Enqueue Job is admitted at counter value a' with a'+1 <= maxConcurrency (snapshot = counter by CheckAndAdd); the store never counts the start twice, releases exactly once on finish/delete; rollback on a failed write; recount on restart. Model = whole PerConfigReconciler pass + Store + listeners, tied to the real code by the queue stream (lagging cache/listeners, faults, restarts); the bound against the API truth is judged by the monitor at every start.",
+        "level_note": "Passes are atomic w.r.t. listener deliveries in the model (CAS failure branch not exercised).",
     },
     "C06": {
         "props_file": "Props/C06.v",
